@@ -229,3 +229,77 @@ Section ShortcutP.
     pose proof (IH (shortcut St mv p i j d) d). pose proof (shortcut_never_longer p i j d). lra.
   Qed.
 End ShortcutP.
+
+(* ---------- reduceVertices: the loop is a sequence of validated vertex shortcuts, for every stream of variates *)
+Section ReduceP.
+  Variable St : Type.
+  Variable mv : St -> St -> bool.
+  Variable range_of : Z -> Z.
+  Hypothesis range_nonneg : forall c, 0 <= range_of c.
+  Definition uok (u : Z * Z) : Prop := 0 <= fst u < snd u.
+
+  Lemma uniform_int_range lo hi u : lo <= hi -> uok u -> lo <= uniform_int lo hi u <= hi.
+  Proof.
+    intros Hl (H0 & H1). unfold uniform_int. set (n := hi + 1 - lo). assert (Hn : 0 < n) by (unfold n; lia).
+    assert (A : 0 <= n * fst u / snd u) by (apply Z.div_pos; nia).
+    assert (B : n * fst u / snd u < n) by (apply Z.div_lt_upper_bound; nia).
+    lia.
+  Qed.
+  Lemma rv_pick_guard count range u1 u2 a b : 1 <= count -> 0 <= range -> uok u1 -> uok u2 ->
+    rv_pick count range u1 u2 = Some (a, b) -> (S a < b)%nat /\ (Z.of_nat b < count).
+  Proof.
+    intros Hc Hr U1 U2. unfold rv_pick.
+    pose proof (uniform_int_range 0 (count - 1) u1 ltac:(lia) U1) as P1. set (p1 := uniform_int 0 (count - 1) u1) in *.
+    pose proof (uniform_int_range (Z.max (p1 - range) 0) (Z.min (count - 1) (p1 + range)) u2 ltac:(lia) U2) as P2.
+    set (p2 := uniform_int (Z.max (p1 - range) 0) (Z.min (count - 1) (p1 + range)) u2) in *.
+    destruct (Z.ltb_spec (Z.abs (p1 - p2)) 2) as [L|L].
+    - destruct (Z.ltb_spec p1 (count - 1 - 1)) as [L1|L1].
+      + intros E. injection E as <- <-. lia.
+      + destruct (Z.ltb_spec 1 p1) as [L2|L2]; [|discriminate]. intros E. injection E as <- <-. lia.
+    - intros E. injection E as <- <-. lia.
+  Qed.
+  Lemma shortcut_eq (p : list St) a b d : (S a < b)%nat -> (b < length p)%nat -> mv (nth a p d) (nth b p d) = true ->
+    shortcut St mv p a b d = firstn (S a) p ++ skipn b p.
+  Proof.
+    intros H1 H2 H3. unfold shortcut. destruct (Nat.ltb_spec (S a) b); [|lia]. destruct (Nat.ltb_spec b (length p)); [|lia]. rewrite H3. reflexivity.
+  Qed.
+  Lemma Forall_tl {A} (Q : A -> Prop) l : Forall Q l -> Forall Q (tl l).
+  Proof. intros H. destruct l; [constructor|inversion H; assumption]. Qed.
+  Lemma hd_ok tape : Forall uok tape -> uok (hd (0, 1) tape).
+  Proof. intros H. destruct tape; [unfold uok; cbn; lia|inversion H; assumption]. Qed.
+
+  Theorem rv_loop_is_shortcuts : forall steps nochange maxEmpty p tape changed d, (1 <= length p)%nat -> Forall uok tape ->
+    exists ijs, fst (rv_loop St mv range_of steps nochange maxEmpty p tape changed d) = shortcuts St mv p ijs d /\
+      (snd (rv_loop St mv range_of steps nochange maxEmpty p tape changed d) = false -> changed = false /\ fst (rv_loop St mv range_of steps nochange maxEmpty p tape changed d) = p).
+  Proof.
+    induction steps as [|k IH]; intros nochange maxEmpty p tape changed d Hp Ht; cbn [rv_loop].
+    - exists []. split; [reflexivity|cbn; auto].
+    - destruct (nochange <? maxEmpty)%nat; [|exists []; split; [reflexivity|cbn; auto]].
+      assert (T2 : Forall uok (tl (tl tape))) by (apply Forall_tl, Forall_tl; exact Ht).
+      destruct (rv_pick (Z.of_nat (length p)) (range_of (Z.of_nat (length p))) (hd (0, 1) tape) (hd (0, 1) (tl tape))) as [[a b]|] eqn:Ep; [|apply IH; assumption].
+      destruct (rv_pick_guard (Z.of_nat (length p)) _ _ _ a b ltac:(lia) (range_nonneg _) (hd_ok tape Ht) (hd_ok (tl tape) (Forall_tl _ _ Ht)) Ep) as (G1 & G2).
+      destruct (mv (nth a p d) (nth b p d)) eqn:Em; [|apply IH; assumption].
+      assert (Hl : (1 <= length (firstn (S a) p ++ skipn b p))%nat) by (rewrite app_length, firstn_length; lia).
+      destruct (IH 1%nat maxEmpty (firstn (S a) p ++ skipn b p) (tl (tl tape)) true d Hl T2) as (ijs & E & F).
+      exists ((a, b) :: ijs). split.
+      + rewrite E. unfold shortcuts. cbn [fold_left fst snd]. rewrite (shortcut_eq p a b d G1 ltac:(lia) Em). reflexivity.
+      + intros Hf. destruct (F Hf) as (Hc & _). discriminate.
+  Qed.
+  Lemma skipn_last (p : list St) d : (1 <= length p)%nat -> skipn (length p - 1) p = [last p d] /\ nth (length p - 1) p d = last p d.
+  Proof.
+    induction p as [|x t IH]; intros H; [cbn in H; lia|]. destruct t as [|y t']; [cbn; auto|].
+    replace (length (x :: y :: t') - 1)%nat with (S (length (y :: t') - 1)) by (cbn; lia). cbn [skipn nth]. change (last (x :: y :: t') d) with (last (y :: t') d). apply IH. cbn. lia.
+  Qed.
+  Theorem reduce_vertices_is_shortcuts : forall p maxSteps maxEmpty tape d, Forall uok tape ->
+    exists ijs, fst (reduce_vertices St mv range_of p maxSteps maxEmpty tape d) = shortcuts St mv p ijs d /\
+      (snd (reduce_vertices St mv range_of p maxSteps maxEmpty tape d) = false -> fst (reduce_vertices St mv range_of p maxSteps maxEmpty tape d) = p).
+  Proof.
+    intros p maxSteps maxEmpty tape d Ht. unfold reduce_vertices. destruct (Nat.ltb_spec (length p) 3) as [L|L]; [exists []; split; [reflexivity|auto]|].
+    destruct (mv (hd d p) (last p d)) eqn:Em.
+    - exists [(0%nat, (length p - 1)%nat)]. split; [|cbn; discriminate]. unfold shortcuts. cbn [fold_left fst snd].
+      destruct (skipn_last p d ltac:(lia)) as (S1 & S2).
+      rewrite shortcut_eq; [rewrite S1; destruct p; [cbn in L; lia|reflexivity]|lia|lia|rewrite S2; destruct p; [cbn in L; lia|exact Em]].
+    - destruct (rv_loop_is_shortcuts (if (maxSteps =? 0)%nat then length p else maxSteps) 0%nat (if (maxEmpty =? 0)%nat then length p else maxEmpty) p tape false d ltac:(lia) Ht) as (ijs & E & F).
+      exists ijs. split; [exact E|]. intros Hf. apply F. exact Hf.
+  Qed.
+End ReduceP.
